@@ -126,8 +126,16 @@ fn run_scenario(sc: &Value, out: &mut dyn Write) {
         t0.elapsed().as_millis()
     };
     let mut ended = false;
+    let busy_stop = Arc::new(AtomicBool::new(false));
     for step in sc.get("steps").and_then(|x| x.as_array()).cloned().unwrap_or_default() {
-        if let Some(pdus) = step.get("rec").and_then(|x| x.as_array()) {
+        if let Some(pdus0) = step.get("rec").and_then(|x| x.as_array()) {
+            // ["bmps", k, n] stands for n bitmap PDUs k .. k+n-1 in this record
+            let mut expanded: Vec<Value> = Vec::new();
+            for p in pdus0 {
+                if p[0].as_str() == Some("bmps") { let k = p[1].as_u64().unwrap_or(0); for i in 0..p[2].as_u64().unwrap_or(1) { expanded.push(json!(["bmp", k + i])); } }
+                else { expanded.push(p.clone()); }
+            }
+            let pdus = &expanded;
             let mut bytes = Vec::new();
             for p in pdus {
                 let kind = p[0].as_str().unwrap_or("");
@@ -135,6 +143,8 @@ fn run_scenario(sc: &Value, out: &mut dyn Write) {
                 let full = bitmap_pdu(k);
                 match kind {
                     "bmp" => { bytes.extend(&full); sent.push(k); }
+                    // one PDU: an update of a kind the library does not implement (pointer position), then the bitmap update
+                    "obmp" => { bytes.extend(rp::fast_path(&[rp::FpUpdate::Other(8, vec![1, 0, 2, 0]), rp::FpUpdate::Bitmap(vec![rp::Rect { l: k as u16, t: 0, r: k as u16, b: 0, w: 1, h: 1, bpp: 32, flags: 0, data: vec![k as u8, 0, 0, 0] }])], false, 0)); sent.push(k); }
                     "ctl" => bytes.extend(ctl_pdu(p.get(1).and_then(|x| x.as_str()).unwrap_or(""))),
                     "bmp3" => { bytes.extend(&bitmap3_pdu(k)); sent.push(k); sent.push(k + 1); sent.push(k + 2); }
                     "part1" => bytes.extend(&full[..full.len() / 2]),
@@ -154,6 +164,12 @@ fn run_scenario(sc: &Value, out: &mut dyn Write) {
             ev!(json!({"ev": "quiet", "fwd": fwd, "after_ms": ms as u64}));
         } else if let Some(ms) = step.get("pause").and_then(|x| x.as_u64()) {
             thread::sleep(Duration::from_millis(ms));
+        } else if step.get("busy").is_some() {
+            // a GUI thread that takes the shared mutex as often as it can (an event of a kind that cannot be sent: refused
+            // without any I/O) until the scenario is over
+            let c2 = client.clone();
+            let stop = busy_stop.clone();
+            thread::spawn(move || { while !stop.load(Ordering::Relaxed) { if let Ok(mut g) = c2.lock() { let _ = g.try_write(RdpEvent::Bitmap(BitmapEvent { dest_left: 0, dest_top: 0, dest_right: 0, dest_bottom: 0, width: 1, height: 1, bpp: 32, is_compress: false, data: vec![0; 4] })); } } });
         } else if let Some(n) = step.get("input").and_then(|x| x.as_u64()) {
             // concurrent input writes from the GUI side, under the shared mutex
             let c2 = client.clone();
@@ -208,6 +224,7 @@ fn run_scenario(sc: &Value, out: &mut dyn Write) {
         }
     }
     let _ = ended;
+    busy_stop.store(true, Ordering::Relaxed);
     // release the thread whatever state it is in: drop the flag, wake it with a byte, then close
     sync.store(false, Ordering::Relaxed);
     if joined.is_none() {
